@@ -190,18 +190,23 @@ def write_bch(texs, rng, **knobs):
 
 # ------------------------------------------------------------------------------------------------ CGFX
 def write_cgfx(texs, rng, **knobs):
+    """knob backward: TXOBs, names and payloads may lie in FRONT of the field that refers to them (and of the
+    dictionary); the self-relative offset is then "negative" (two's complement, position + offset modulo 2^32)"""
     n = len(texs)
+    back = knobs.get("backward")
     pl = Placer(rng, 0x9C, knobs)
-    d = pl.reserve(28 + 16 * n)
     jobs = [("txob", i) for i in range(n)]
-    # forward references only: a TXOB before its name and payload, the dictionary before everything
     rest = [(k, i) for i in range(n) for k in ("n", "d")] + ([("dn", i) for i in range(n)] if knobs.get("two_names") else [])
     off = {}
-    if knobs.get("permute"):
+    if back:
+        order = [("dict", 0)] + jobs + rest
+        rng.shuffle(order)
+    elif knobs.get("permute"):
+        # forward references only: a TXOB before its name and payload, the dictionary before everything
         pending = list(jobs) + rest
         rng.shuffle(pending)
         done = set()
-        order = []
+        order = [("dict", 0)]
         while pending:
             for j in list(pending):
                 if j[0] == "txob" or ("txob", j[1]) in done or j[0] == "dn":
@@ -210,17 +215,20 @@ def write_cgfx(texs, rng, **knobs):
                     pending.remove(j)
                     break
     else:
-        order = jobs + rest
+        order = [("dict", 0)] + jobs + rest
     if knobs.get("names_last"):
         order = [j for j in order if j[0] not in ("n", "dn")] + [j for j in order if j[0] in ("n", "dn")]
+    d = None
     for (k, i) in order:
-        if k == "txob":
+        if k == "dict":
+            d = pl.reserve(28 + 16 * n)
+        elif k == "txob":
             off[(k, i)] = pl.reserve(76)
         elif k in ("n", "dn"):
             if k == "dn":
-                off[(k, i)] = pl.put_name(texs[i]["name"], d + 28 + 16 * i + 8)
+                off[(k, i)] = pl.put_name(texs[i]["name"], 0 if back else d + 28 + 16 * i + 8)
             elif not knobs.get("two_names"):
-                off[(k, i)] = pl.put_name(texs[i]["name"], off[("txob", i)] + 12)
+                off[(k, i)] = pl.put_name(texs[i]["name"], 0 if back else off[("txob", i)] + 12)
             else:
                 # a private copy for the TXOB
                 pl.gap()
@@ -228,17 +236,21 @@ def write_cgfx(texs, rng, **knobs):
                 pl.buf[pl.pos] = texs[i]["name"] + b"\0"
                 pl.pos += len(texs[i]["name"]) + 1
         else:
-            off[(k, i)] = pl.put(texs[i]["data"], share=False)
+            off[(k, i)] = pl.put(texs[i]["data"], share=bool(back))
+
+    def rel(target, field):
+        assert back or target >= field
+        return (target - field) & 0xFFFFFFFF
     hdr = struct.pack("<IHHIII", 0x58464743, 0xFEFF, 0x14, 0x05000000, 0, 1)
     data = bytearray(struct.pack("<II", 0x41544144, 0))
     for j in range(16):
         if j == 1:
-            data += struct.pack("<II", n, d - (0x20 + 8 * j))
+            data += struct.pack("<II", n, rel(d, 0x20 + 8 * j))
         else:
-            # an empty dictionary (offset 0) or, with junk, a reference to some place inside the file
+            # an empty dictionary (offset 0) or, with junk, any offset (only entry 1 is ever followed)
             v = 0
             if knobs.get("junk_fields") and rng.random() < 0.5:
-                v = rng.randrange(0, max(1, pl.pos - (0x20 + 8 * j)))
+                v = rng.getrandbits(32) if rng.random() < 0.5 else rng.randrange(0, max(1, pl.pos - (0x20 + 8 * j)))
             data += struct.pack("<II", junk32(rng, knobs) if v else 0, v)
     fixed = {0: hdr, 0x14: bytes(data)}
     dic = bytearray(struct.pack("<III", 0x54434944, 28 + 16 * n, n))
@@ -246,20 +258,20 @@ def write_cgfx(texs, rng, **knobs):
     for i in range(n):
         r = d + 28 + 16 * i
         nm = off[("dn", i)] if knobs.get("two_names") else off[("n", i)]
-        dic += struct.pack("<IHHII", junk32(rng, knobs), i, (i + 1) % max(n, 1), nm - (r + 8), off[("txob", i)] - (r + 12))
+        dic += struct.pack("<IHHII", junk32(rng, knobs), i, (i + 1) % max(n, 1), rel(nm, r + 8), rel(off[("txob", i)], r + 12))
     fixed[d] = bytes(dic)
     for i, t in enumerate(texs):
         o = off[("txob", i)]
         tx = bytearray(struct.pack("<I", junk32(rng, knobs)) * 19)
         tx[0:4] = struct.pack("<I", 0x20000011)
         tx[4:8] = struct.pack("<I", 0x424F5854)
-        tx[12:16] = struct.pack("<I", off[("n", i)] - (o + 12))
+        tx[12:16] = struct.pack("<I", rel(off[("n", i)], o + 12))
         tx[24:28] = struct.pack("<I", t["h"])
         tx[28:32] = struct.pack("<I", t["w"])
         tx[40:44] = struct.pack("<I", 1)
         tx[52:56] = struct.pack("<I", t["fmt"])
         tx[68:72] = struct.pack("<I", len(t["data"]))
-        tx[72:76] = struct.pack("<I", off[("d", i)] - (o + 72))
+        tx[72:76] = struct.pack("<I", rel(off[("d", i)], o + 72))
         fixed[o] = bytes(tx)
     img = bytearray(pl.image(fixed))
     img[12:16] = struct.pack("<I", len(img))
